@@ -127,7 +127,8 @@ def call_fitter(fname, model, data_obj, prob, method, sigma, normalize):
     idx = np.array([prob['lab'][p] for p in prob['pos']])
     kw = dict(method=method, pattern_idx=idx, pattern_descriptor=prob['desc'])
     if method.endswith('_cov'):
-        kw['sigma_k'] = sigma
+        # a preallocated covariance buffer overwritten from case to case (same object, new values)
+        kw['sigma_k'] = gen.reused_buffer(sigma) if sigma is not None and len(prob['pos']) % 2 else sigma
     f = dict(fit_regress=fit_regress, fit_regress_nn=fit_regress_nn, fit_optimize=fit_optimize,
              fit_optimize_positive=fit_optimize_positive, fit_select=fit_select, fit_interpolate=fit_interpolate)[fname]
     if fname in ('fit_regress', 'fit_regress_nn', 'fit_optimize', 'fit_optimize_positive'):
